@@ -9,11 +9,15 @@ use zeromq::{Endpoint, ZmqError};
 use zvcore::evidence::{Check, Tier};
 use zvcore::refcodec as rc;
 
-const OPS: [&str; 13] = ["bind-tcp4", "bind-tcp6", "bind-localhost", "bind-ipc", "bind-duplicate", "unbind-oldest", "unbind-unknown", "connect-in-each", "exchange-established", "rebind-last-unbound", "150-failed-handshakes-on-oldest", "MODE:back-to-back-on-current-thread-runtime", "silent-client-stays-on-oldest"];
+const OPS: [&str; 14] = ["bind-tcp4", "bind-tcp6", "bind-localhost", "bind-ipc", "bind-duplicate", "unbind-oldest", "unbind-unknown", "connect-in-each", "exchange-established", "rebind-last-unbound", "150-failed-handshakes-on-oldest", "MODE:back-to-back-on-current-thread-runtime", "silent-client-stays-on-oldest", "bind-ipc-unusual-name"];
 /// Not an operation: as the first element of a sequence it selects the back-to-back mode - the calls follow each other
 /// with no suspension point of the application between them (on the current-thread runtime nothing a call spawned has
 /// been polled when the next call starts); the model is compared after the last call only.
 const MODE_AT_ONCE: u8 = 11;
+/// set once the process has made a private scratch directory its working directory (worker processes only): ipc names
+/// that are relative, start with '@', contain spaces or non-ASCII characters, or are very long can then be bound safely
+static SCRATCH_CWD: std::sync::atomic::AtomicBool = std::sync::atomic::AtomicBool::new(false);
+static UNUSUAL: std::sync::atomic::AtomicU64 = std::sync::atomic::AtomicU64::new(0);
 const FAILED_HANDSHAKES: usize = 150;
 
 struct Client {
@@ -78,11 +82,22 @@ async fn run_sequence(ty: Ty, seq: &[u8]) -> Vec<(String, String)> {
             continue;
         }
         match *op {
-            0..=3 => {
+            0..=3 | 13 => {
                 let spec = match *op {
                     0 => "tcp://127.0.0.1:0".to_string(),
                     1 => "tcp://[::1]:0".to_string(),
                     2 => "tcp://localhost:0".to_string(),
+                    13 if SCRATCH_CWD.load(std::sync::atomic::Ordering::Relaxed) => {
+                        // names relative to the (private) working directory, in five spellings
+                        let n = UNUSUAL.fetch_add(1, std::sync::atomic::Ordering::Relaxed);
+                        match (step + ever.len()) % 5 {
+                            0 => format!("ipc://@zv{}", n),
+                            1 => format!("ipc://rel{}.sock", n),
+                            2 => format!("ipc://with space {}.sock", n),
+                            3 => format!("ipc://\u{fc}n\u{ef}{}.sock", n),
+                            _ => format!("ipc://{}{}", "l".repeat(90), n),
+                        }
+                    }
                     _ => format!("ipc://{}", e4::ipc_path().display()),
                 };
                 match sock.bind(&spec).await {
@@ -386,9 +401,9 @@ fn sequences(max_len: usize, max_len_with_failures: usize) -> Vec<Vec<u8>> {
     for _ in 0..max_len {
         let mut next = Vec::new();
         for s in &level {
-            for op in (0..MODE_AT_ONCE).chain([12u8]) {
+            for op in (0..MODE_AT_ONCE).chain([12u8, 13u8]) {
                 // operations that need a bound endpoint / a client are no-ops on an empty history: skip the duplicates
-                let binds = s.iter().filter(|o| **o <= 3).count();
+                let binds = s.iter().filter(|o| **o <= 3 || **o == 13).count();
                 if (op == 4 || op == 5 || op == 7) && binds == 0 {
                     continue;
                 }
@@ -403,6 +418,10 @@ fn sequences(max_len: usize, max_len_with_failures: usize) -> Vec<Vec<u8>> {
                     continue;
                 }
                 if op == 12 && (binds == 0 || s.contains(&12)) {
+                    continue;
+                }
+                // the unusual ipc names: at most twice per sequence
+                if op == 13 && s.iter().filter(|o| **o == 13).count() >= 2 {
                     continue;
                 }
                 if s.len() + 1 > max_len_with_failures && (op == 10 || s.contains(&10)) {
@@ -446,6 +465,15 @@ fn all_cases(tier: Tier) -> Vec<(Ty, Vec<u8>)> {
 pub fn shard(tier: Tier, i: usize, n: usize, private_net: bool) -> i32 {
     if private_net && !e4::enter_private_netns() {
         return 77;
+    }
+    // a private scratch directory as working directory: relative ipc names land (and are cleaned up) there
+    {
+        let dir = e4::ipc_path();
+        if let Some(d) = dir.parent() {
+            if std::env::set_current_dir(d).is_ok() {
+                SCRATCH_CWD.store(true, std::sync::atomic::Ordering::Relaxed);
+            }
+        }
     }
     let cases = all_cases(tier);
     let t0 = std::time::Instant::now();
@@ -508,8 +536,14 @@ pub fn run(tier: Tier, replay: Option<String>) -> i32 {
         }
         let ty = Ty::from_name(r["type"].as_str().unwrap()).unwrap();
         let seq: Vec<u8> = r["ops"].as_array().unwrap().iter().map(|o| OPS.iter().position(|x| Some(*x) == o.as_str()).unwrap() as u8).collect();
+        if let Some(d) = e4::ipc_path().parent() {
+            if std::env::set_current_dir(d).is_ok() {
+                SCRATCH_CWD.store(true, std::sync::atomic::Ordering::Relaxed);
+            }
+        }
         let rt = e4::runtime(if seq.first() == Some(&MODE_AT_ONCE) { 0 } else { 2 });
         let viol = rt.block_on(run_sequence(ty, &seq));
+        let _ = std::env::set_current_dir("/");
         e4::cleanup_ipc_dir();
         for (c, m) in &viol {
             println!("replay: VIOLATION {}: {}", c, m);
@@ -596,11 +630,11 @@ pub fn run(tier: Tier, replay: Option<String>) -> i32 {
     ck.cov("sequences_skipped_after_violations_or_budget", skipped);
     ck.cov("wall_budget_exhausted", budget_hit);
     ck.cov("evaluations", done);
-    ck.cov("distinct_nontrivial", cases.iter().filter(|(_, s)| s.iter().any(|o| *o <= 3)).count() as u64);
+    ck.cov("distinct_nontrivial", cases.iter().filter(|(_, s)| s.iter().any(|o| *o <= 3 || *o == 13)).count() as u64);
     ck.cov("sequences_by_length", json!(lens.iter().map(|(k, v)| (k.to_string(), *v)).collect::<std::collections::BTreeMap<_, _>>()));
     ck.cov("isolated_network_namespaces", isolated);
     ck.cov("exhaustive", skipped == 0);
-    ck.cov("rule", format!("every sequence of length <= {} over the 11 operations {:?} and a twelfth, \"silent-client-stays-on-oldest\" (a raw client connects, says nothing and stays; a well-behaved one right behind it must be served; at most once per sequence) (operations that need a bound endpoint or an established client are omitted where they would be no-ops; the last operation - 150 clients that close in mid-handshake one after the other, then a well-behaved one - at most once and in sequences of length <= {}) on a real REP and a real PULL socket on the real tokio runtime (multi-thread), plus every sequence of length <= {} over the bind/unbind operations alone in back-to-back mode on the current-thread runtime (no suspension point of the application between the calls, nothing a call spawned has been polled when the next call starts; model compared after the last call): {} sequences; distinct by construction; non-trivial = contains at least one bind. After EVERY operation: return value as the reference model says (wildcard port resolved non-zero, duplicate bind fails and changes nothing, unbind of anything not bound - an endpoint bound earlier, a far miss, and near misses of every bound endpoint (same port under another host name or address, same ipc path with a suffix) - fails with NoSuchBind and changes nothing), binds() equals the model's set, every bound endpoint accepts a fresh connection by its text form and completes a message exchange, every endpoint not bound (any more) refuses at once, connections established earlier keep working across later unbinds. Additionally, in a child process with a lowered descriptor limit: REP and PULL with two bound endpoints, accept() on one of them failing once for lack of descriptors - the endpoint stays in binds(), accepts a fresh connection afterwards and exchanges a message, the other endpoint is unaffected. Each worker process runs in its own network namespace so that no other process can take a port this check expects to be free.", tier.pick(4, 5), &OPS[..11], tier.pick(3, 4), tier.pick(3, 4), cases.len()));
+    ck.cov("rule", format!("every sequence of length <= {} over the 11 operations {:?} and two more, \"bind-ipc-unusual-name\" (ipc names relative to a private working directory in five spellings: leading '@', plain relative, with a space, non-ASCII, 90+ characters; at most twice per sequence) and \"silent-client-stays-on-oldest\" (a raw client connects, says nothing and stays; a well-behaved one right behind it must be served; at most once per sequence) (operations that need a bound endpoint or an established client are omitted where they would be no-ops; the last operation - 150 clients that close in mid-handshake one after the other, then a well-behaved one - at most once and in sequences of length <= {}) on a real REP and a real PULL socket on the real tokio runtime (multi-thread), plus every sequence of length <= {} over the bind/unbind operations alone in back-to-back mode on the current-thread runtime (no suspension point of the application between the calls, nothing a call spawned has been polled when the next call starts; model compared after the last call): {} sequences; distinct by construction; non-trivial = contains at least one bind. After EVERY operation: return value as the reference model says (wildcard port resolved non-zero, duplicate bind fails and changes nothing, unbind of anything not bound - an endpoint bound earlier, a far miss, and near misses of every bound endpoint (same port under another host name or address, same ipc path with a suffix) - fails with NoSuchBind and changes nothing), binds() equals the model's set, every bound endpoint accepts a fresh connection by its text form and completes a message exchange, every endpoint not bound (any more) refuses at once, connections established earlier keep working across later unbinds. Additionally, in a child process with a lowered descriptor limit: REP and PULL with two bound endpoints, accept() on one of them failing once for lack of descriptors - the endpoint stays in binds(), accepts a fresh connection afterwards and exchanges a message, the other endpoint is unaffected. Each worker process runs in its own network namespace so that no other process can take a port this check expects to be free.", tier.pick(4, 5), &OPS[..11], tier.pick(3, 4), tier.pick(3, 4), cases.len()));
     ck.sample(json!({"type":"REP","ops":["bind-tcp4","connect-in-each","unbind-oldest","exchange-established"]}));
     ck.assume("OS schedules are not enumerated; conditions the statement ties to a return are tested immediately after the return");
     ck.conclude()
